@@ -6,8 +6,8 @@ import os
 ID = "C01"
 LEVEL = "proof"
 HERE = os.path.dirname(os.path.abspath(__file__))
-_PCXX = os.path.join(HERE, "pcxx.py")          # parallel compile wrapper: the same source in 14 parts
-_NPARTS = "-DC01_NPARTS=14"
+_PCXX = os.path.join(HERE, "pcxx.py")          # parallel compile wrapper: the same source in 15 parts
+_NPARTS = "-DC01_NPARTS=15"
 HARNESSES = [
     {"name": "main", "src": "harness.cpp", "compiler": _PCXX, "flags": ["-O1", "-DTETL_ENABLE_CONTRACT_CHECKS=1", _NPARTS]},
     {"name": "asan", "src": "harness.cpp", "compiler": _PCXX,
@@ -23,15 +23,25 @@ RULE = ("a case = a whole operation history on two objects of one flavour: stati
         "bidirectional / forward / single-pass input / random-access class sources, the SOURCE range printed after every range operation "
         "(Tracked / MoveOnly mark a moved-from object, a moved-from std::string is empty: copy vs move is observable); "
         "arguments that are elements of the vector itself; "
+        "ARGUMENT types: etl::erase with a value of another arithmetic type than the elements and erase_if with a predicate parameter of "
+        "another type (static_vector of int / long long / double against unsigned char, signed char, short, unsigned short, unsigned, "
+        "long long, unsigned long long, double, int: element pools whose members become equal to the value only after a lossy conversion), "
+        "reference std::erase / std::erase_if on std::vector<T>; emplace_back(a, b) / emplace(pos, a, b) / stack::emplace(a, b) / "
+        "try_emplace_back(a, b) / unchecked_emplace_back(a, b) on element types with an initializer_list constructor next to a two-argument "
+        "one (std::vector<int>, a non-trivial and a trivial record: T(a, b) != T{a, b}, T(x) != T{x}), reference "
+        "std::vector<T>::emplace_back(a, b); the reference returned by emplace_back / stack::emplace / unchecked_emplace_back (and the "
+        "pointer of try_emplace_back) located among the container's slots and written through; "
         "capacities {0,1,2,3,4,8,16,254,255,256} and "
         "{65534,65535,65536}; exhaustive part: every content state of length <= cap <= 3 over values {1,18,35} x every single "
-        "operation (54 static_vector, 18 stack, 24 inplace_vector operations of the model) with every position/count/index "
+        "operation (58 static_vector, 19 stack, 26 inplace_vector operations of the model) with every position/count/index "
         "argument in [-1, size+1]; short exhaustive histories for inplace_vector and stack; random part: seeded capacity-aware "
         "histories of length <= 40, ~35% of steps at or crossing full/empty, fill-to-boundary runs at 254/255/256 and 65534/65535/65536; non-trivial = distinct history that reaches a non-empty state")
 TRUSTED_BASE = ["reference leg: libstdc++ 12 std::vector<int> / std::stack<int, std::vector<int>> driven by the same history "
                 "(reserve()d, so no reallocation effects); the relations of the KeyTag flavours and the source range after a range member are "
-                "computed with std::vector<T> / std::stack<T> of the flavour's own element type",
-                "props/C01/pcxx.py (parallel compile wrapper around g++)"]
+                "computed with std::vector<T> / std::stack<T> of the flavour's own element type, likewise std::erase / std::erase_if with the "
+                "value / parameter type of the call and the element std::vector<T>::emplace_back(a, b) constructs",
+                "props/C01/pcxx.py (parallel compile wrapper around g++; a harness part that does not compile against the library under test is "
+                "replaced by a stub whose flavours answer `harness-does-not-compile part<k>: <first compiler error>`)"]
 ASSUMPTIONS = ["element values are ints (the non-trivial element types wrap an int, count live instances and check their own identity; "
                "std::string elements are 24-digit decimal strings)",
                "a moved-from vector/stack is only cleared/assigned/destroyed afterwards (its content is unspecified in std)"]
@@ -57,7 +67,7 @@ TWO_ARG = ("vi", "iln", "ilt")          # flavours whose element type has T(a, b
 ARITH = ("sv_int", "sv_ll", "sv_dbl")   # flavours whose element type is arithmetic
 # (a, b) of the two-argument emplace operations.  For std::vector<int> the b of a multi-element result is one value larger
 # than every other element in use, so that the lexicographic order of the elements is the order of their codes
-AB = [(2, 70), (3, 70), (1, 5), (0, 9), (2, 2)]
+AB = [(2, 70), (3, 70), (1, 5), (0, 9), (4, 70)]
 # value types of erh / eih by number (harness.cpp with_value): (bits, signed, is_double)
 VTY = {1: (8, False, False), 2: (8, True, False), 3: (16, True, False), 4: (32, False, False), 5: (64, True, False),
        6: (64, True, True), 7: (32, True, False), 8: (64, False, False), 9: (16, False, False)}
@@ -527,9 +537,9 @@ def gen(tier, rng):
     #      them emplace_back(a, b) / emplace(pos, a, b) / stack::emplace(a, b) / try_emplace_back(a, b) /
     #      unchecked_emplace_back(a, b), which must construct T(a, b) - and T(x), not T{x}, for the one-argument forms
     for fl in ("sv_vi", "sv_iln", "sv_ilt"):
-        exhaustive_single(out, fl, 3, vals, full_contents=False, rng=rng, keep=(0.35 if quick else 1.0))
+        exhaustive_single(out, fl, 3, vals, full_contents=False, rng=rng, keep=(0.2 if quick else 1.0))
     for fl in ("st_vi", "st_iln", "st_ilt", "iv_vi", "iv_iln", "iv_ilt"):
-        exhaustive_single(out, fl, 3, vals, full_contents=not quick)
+        exhaustive_single(out, fl, 3, vals, full_contents=not quick, rng=rng, keep=(0.5 if quick else 1.0))
     for fl in ("sv_vi", "sv_iln", "sv_ilt", "st_vi", "st_iln", "st_ilt", "iv_vi", "iv_iln", "iv_ilt"):
         k = kind(fl)
         for (a, b), (a2, b2) in itertools.product(AB, repeat=2):
@@ -548,7 +558,7 @@ def gen(tier, rng):
         # flavour: (pool of element codes, [(value type, value), ...])
         "sv_int": ([44, 300, 556, -212, 65580, -1, 7, 11],
                    [(1, 44), (2, 44), (2, -1), (3, 44), (9, 44), (9, 65535), (4, 44), (4, 4294967295), (5, 44), (5, 4294967340), (8, 44),
-                    (8, 18446744073709551615), (6, 176), (6, 177), (7, 44), (0, 300)]),
+                    (8, 4294967252), (6, 176), (6, 177), (7, 44), (0, 300)]),
         # long long: code 16 * h + l = h * 2^32 + l
         "sv_ll": ([1, 17, 33, 5, 21, 12, 257 * 16 + 1],
                   [(7, 1), (7, 5), (4, 1), (1, 1), (3, 12), (5, 4294967297), (5, 1), (0, 8589934593), (6, 4), (8, 1), (2, 5)]),
